@@ -424,12 +424,11 @@ def h_npc(I, self, other, comparator):
         vec = L.vmap(d.vec, lambda x: f(x, z3.RealVal(0)))
     elif isinstance(other, Expl) and other.kind == "ehq":
         o = dv(I, other)
-        # element-wise max/min BY TIMESTAMP of two series on the same time line, in the same unit (C04/C09)
-        # PRECONDITIONS (the method compares bare magnitudes by position): same dimension, same unit, same time line
-        I.require("np_compared_with: both series have the same dimension", o.unit.dim == d.unit.dim)
-        I.require("np_compared_with: both series have the same index", d.vec.inidx(TT) == o.vec.inidx(TT))
-        I.require("np_compared_with: both series are expressed in the same unit", rv(d.unit.factor) == rv(o.unit.factor))
-        vec = L.vpointwise_same_index(d.vec, o.vec, f)
+        # element-wise max/min BY TIMESTAMP on the union of both time lines, missing hours counting as zero,
+        # physical values compared (so the operands' units do not matter); incompatible dimensions raise (C04 / C09)
+        if o.unit.dim != d.unit.dim: raise SymRaise("DimensionalityError", "np_compared_with")
+        a_, b_ = d.vec, o.vec
+        vec = Vec(lambda t: z3.Or(a_.inidx(t), b_.inidx(t)), lambda t: f(a_.v0(t), b_.v0(t)))
     else:
         raise SymRaise("ValueError", "np_compared_with")
     return new_expl(I, "ehq", DF(vec, d.unit), Label(True), left=self, right=other, operator=Label(True))
